@@ -165,6 +165,9 @@ class ToNNX(Module):
       _rngs = (
         {name: stream() for name, stream in rngs.items()} if rngs else {}
       )
+      # rename default to params, as during init
+      if 'params' not in _rngs and 'default' in _rngs:
+        _rngs['params'] = _rngs.pop('default')
 
       # Get `mutable` from top level bridge.Module context if any
       if (m := bdg_module.current_module()) is not None:
